@@ -3,7 +3,7 @@
 import json, os, re, sys
 V = os.path.dirname(os.path.dirname(os.path.abspath(__file__)))
 for l in open(sys.argv[1]):
-    m = re.match(r'(C\d\d)/(C\d\d-h\d) :: (\S+)', l.strip())
+    m = re.match(r'(C\d\d)/(C\d\d-h\d+) :: (\S+)', l.strip())
     if not m:
         continue
     d = os.path.join(V, 'seeded_harmless', m.group(2))
